@@ -216,6 +216,7 @@ fn gen_base(rng: &mut Rng) -> ConnScenario {
         client,
         wplan: vec![],
         cap_ns: secs(1200),
+        prelude: vec![],
     }
 }
 
